@@ -11,3 +11,10 @@ template void QV::UseBigInt<Qentem::BigInt<Qentem::SizeT64, 256U>, Qentem::SizeT
 template void QV::UseBigInt<Qentem::BigInt<Qentem::SizeT32, 128U>, Qentem::SizeT32, Qentem::SizeT64>(Qentem::BigInt<Qentem::SizeT32, 128U> &, const Qentem::BigInt<Qentem::SizeT32, 128U> &, Qentem::SizeT32, Qentem::SizeT64, bool *);
 template void QV::UseBigInt<Qentem::BigInt<Qentem::SizeT16, 64U>, Qentem::SizeT16, Qentem::SizeT32>(Qentem::BigInt<Qentem::SizeT16, 64U> &, const Qentem::BigInt<Qentem::SizeT16, 64U> &, Qentem::SizeT16, Qentem::SizeT32, bool *);
 template void QV::UseBigInt<Qentem::BigInt<Qentem::SizeT8, 32U>, Qentem::SizeT8, Qentem::SizeT32>(Qentem::BigInt<Qentem::SizeT8, 32U> &, const Qentem::BigInt<Qentem::SizeT8, 32U> &, Qentem::SizeT8, Qentem::SizeT32, bool *);
+namespace Qentem {
+template struct DoubleSize<SizeT32, 64U>;
+template struct DoubleSize<SizeT64, 64U>;
+template struct DoubleSize<SizeT8, 8U>;
+template struct DoubleSize<SizeT16, 16U>;
+template struct DoubleSize<SizeT32, 32U>;
+}
